@@ -175,6 +175,9 @@ structure Ent where
   matched : List String := []        -- names of matched remote endpoints
   known : List String := []          -- endpoints already found incompatible (writer: incompatible_subscription_list,
                                      -- reader: incompatible_writer_list) / inconsistent (topic: inconsistent_endpoint_list)
+  badTypes : List String := []       -- topic: discovered types reported as inconsistent when their representation
+                                     -- arrived (inconsistent_type_list, type-lookup reply path)
+  incons : Nat := 0                  -- topic: InconsistentTopicStatus.total_count
 deriving Repr
 
 structure World where
@@ -268,8 +271,43 @@ def raiseOn (w : World) (ev : Event) (n : String) : World :=
   | some e => raise w ev e
   | none => w
 
+/-- count one inconsistency on topic `n` and notify it -/
+def countInconsistent (w : World) (n : String) : World :=
+  match w.find n with
+  | some t => raiseOn (World.update w { t with incons := t.incons + 1 }) .inconsistentTopic n
+  | none => w
+
+/-- type-lookup reply path (discovery_methods.rs process_builtin_type_lookup_reply_cache_change): the representation of
+    a discovered type of the same topic name arrives ONCE per (local topic, remote type); if it is not assignable the
+    topic counts it, notifies, and remembers the type (fixes/D-listen-2.patch: `inconsistent_type_list`) -/
+def resolveType (w : World) (local_ remoteTy : String) : World :=
+  match w.find local_ with
+  | some t =>
+    if t.ty == remoteTy || t.badTypes.contains remoteTy then w
+    else countInconsistent (World.update w { t with badTypes := t.badTypes ++ [remoteTy] }) local_
+  | none => w
+
+/-- a topic was created: every topic of ANOTHER participant with the same DDS name and a different type is discovered
+    (DCPS_TOPIC) and its type representation requested, on both sides -/
+def meetTopics (w : World) (newName : String) : World :=
+  match w.find newName with
+  | some nt =>
+    let others := w.ents.filter (fun e => e.kind == .topic && e.name != nt.name && e.tname == nt.tname
+      && e.parent != nt.parent && e.ty != nt.ty)
+    others.foldl (fun w o => resolveType (resolveType w o.name nt.ty) nt.name o.ty) w
+  | none => w
+
+/-- `TopicEntity::add_inconsistent_endpoint` (fixes/D-listen-2.patch): a remote endpoint with an inconsistent type is
+    recorded once; it is a NEW inconsistency to report unless its type was already reported by `resolveType` -/
+def noteEndpoint (w : World) (topic who whoTy : String) : World × Bool :=
+  match w.find topic with
+  | some t =>
+    if t.known.contains who then (w, false)
+    else (World.update w { t with known := t.known ++ [who] }, !(t.badTypes.contains whoTy))
+  | none => (w, false)
+
 /-- a writer and a reader meet (same DDS topic name): match, incompatible QoS, or inconsistent topic.
-    An incompatible / inconsistent remote endpoint changes the status ONCE (fixes/D-listen-1.patch, D-listen-2.patch) -/
+    An incompatible / inconsistent remote endpoint changes the status at most ONCE (D-listen-1, D-listen-2 patches) -/
 def meet (w : World) (wrn rdn : String) : World :=
   match w.find wrn, w.find rdn with
   | some wr, some rd =>
@@ -277,11 +315,11 @@ def meet (w : World) (wrn rdn : String) : World :=
     | some tw, some tr =>
       if tw.tname != tr.tname then w
       else if tw.ty != tr.ty then
-        -- each side blames its own topic, once per offending remote endpoint
-        let (w, n1) := noteKnown w tw.name rdn
-        let w := if n1 then raiseOn w .inconsistentTopic tw.name else w
-        let (w, n2) := noteKnown w tr.name wrn
-        if n2 then raiseOn w .inconsistentTopic tr.name else w
+        -- each side blames its own topic, once per offending remote endpoint and not again for an already reported type
+        let (w, n1) := noteEndpoint w tw.name rdn tr.ty
+        let w := if n1 then countInconsistent w tw.name else w
+        let (w, n2) := noteEndpoint w tr.name wrn tw.ty
+        if n2 then countInconsistent w tr.name else w
       else if compatible wr rd then
         let w := World.update w { wr with matched := wr.matched ++ [rdn] }
         let w := World.update w { rd with matched := rd.matched ++ [wrn] }
